@@ -52,11 +52,11 @@ def pool(k):
 NAMESETS = [("q0", "q1"), ("q0", "q1", "q2"), ("q1", "q2"), ("q2", "q10"), ("q1", "q3", "q4"), ("q0",)]
 
 
-def arrays():
+def arrays(tier="quick"):
     for names in NAMESETS:
         pl = pool(len(names))
         for shape in SHAPES:
-            for rot, stride in ((0, 1), (3, 1), (1, 2)):
+            for rot, stride in ((0, 1), (3, 1), (1, 2)) + (((5, 1), (2, 3), (7, 1), (4, 5)) if tier == "thorough" else ()):
                 for kind in ("i8", "f8"):
                     if kind == "f8" and (rot or shape in ((1,), (7,))):
                         continue
@@ -68,11 +68,11 @@ def arrays():
 
 def cases(tier, seed):
     out = []
-    items = list(arrays())
+    items = list(arrays(tier))
     for i0 in range(0, len(items), 6):
-        out.append({"k": "lead", "i0": i0, "i1": min(len(items), i0 + 6)})
+        out.append({"k": "lead", "i0": i0, "i1": min(len(items), i0 + 6), "tier": tier})
     for i0 in range(0, len(items), 10):
-        out.append({"k": "misc", "i0": i0, "i1": min(len(items), i0 + 10)})
+        out.append({"k": "misc", "i0": i0, "i1": min(len(items), i0 + 10), "tier": tier})
     return out
 
 
@@ -85,7 +85,7 @@ def prekey(el, names, graded, reverse):
 
 
 def run_case(case, R):
-    items = list(arrays())[case["i0"]:case["i1"]]
+    items = list(arrays(case.get("tier", "quick")))[case["i0"]:case["i1"]]
     for names, shape, rot, kind, sp in items:
         p, m = build_checked(sp), model_of(sp)
         els = m.elements()
